@@ -22,8 +22,9 @@ Definition spec_role_fix (token_set : bool) (cred : nat) : option nat :=
   end.
 
 (* class: 0 unauthorized 1 forbidden 2 debug-disabled 3 unsupported 4 dispatched 5 invalid 9 no reply *)
-Definition judge_request (kind : string) (cred : nat) (token_set debug_on has_params admin_key : bool)
-  (class need : nat) (changed has_result : bool) : bool :=
+Definition judge_request (kind : string) (cred : nat) (token_set debug_on has_params : bool) (key : string)
+  (class need : nat) (changed has_result admin_changed : bool) : bool :=
+  let admin_key := smem key admin_only_config_keys in
   let executed := Nat.eqb class 4 || changed in
   (* the endpoint always answers *)
   negb (Nat.eqb class 9) &&
@@ -37,8 +38,11 @@ Definition judge_request (kind : string) (cred : nat) (token_set debug_on has_pa
           admin-only configuration keys need admin *)
        (negb executed ||
         ((smem kind readonly_kinds || Nat.ltb viewer_rank r) &&
-         (negb (String.eqb kind "config.set" && admin_key) || Nat.eqb r 3)))
+         (negb (String.eqb kind "config.set" && admin_key) || Nat.eqb r 3))) &&
+       (* whatever was asked and however it was spelled: admin-only state changes only for the admin role *)
+       (negb admin_changed || Nat.eqb r 3)
    end) &&
+  (negb admin_changed || changed) &&
   (* debug-class requests are refused while debugging is disabled *)
   (debug_on || negb (smem kind debug_class_kinds) || negb executed).
 
